@@ -141,6 +141,7 @@ def judgeMarshal (si : Schema) (strictId : Bool) (marsh : Sexp) (cls : String) :
     if strictId then .oracle "Schema.Marshal returned an error for a well-formed schema" else .diff "Marshal error (model marshals every value)"
   | .list (.atom "panic" :: _) => .oracle s!"Schema.Marshal panicked: {marsh}"
   | .list [.atom "mnotjson", _] => .oracle "Schema.Marshal output is not valid JSON"
+  | .list [.atom "maliased"] => .oracle "the bytes returned by an earlier Schema.Marshal call changed during this call (results share storage)"
   | .list [.atom "m", t, re] =>
     match toJson t with
     | none => .bad "marshal tree"
@@ -175,6 +176,8 @@ def c14 (op : String) (args : List Sexp) : Verdict :=
       | none => .bad "schema dump"
       | some si => judgeMarshal si true marsh s!"gen/{name}/{if si.wf then "wf" else "nonwf"}"
     | _ => .bad "gen outcome"
+  | "doc", [_, .list [.atom "res", _, .list (.atom "hdr-mismatch" :: rest)]] =>
+    .oracle s!"the same text as the avro.schema entry of a container file header is read differently (FileSchema) from SchemaFromString: {rest}"
   | "doc", [_, .list [.atom "res", info, impl]] =>
     let implV : Option (Option (Schema × Sexp)) := match impl with
       | .list [.atom "err"] => some none
